@@ -24,6 +24,7 @@ RULE = ("Scenario = backend {local flock, S3 with conditional writes} x topology
         "index x every actor) for fixed 2-committer scenarios, and Hypothesis PCT-style schedules (priority order + <=3 change points) over generated "
         "scenarios. Oracle: every version the pointer ever named is parsed in flip order; version k must equal version k-1 with exactly the flipping actor's "
         "operation applied; acknowledged <=> flipped exactly once; final table = last version; parents linear, sequence numbers strictly increasing. "
+        "A multi-process stress mix-in (6 OS processes, own handles, appends + snapshot-preserving commits) applies the end-state part of the oracle without schedule control. "
         "Non-trivial: some committer read its base before another committer's flip and attempted its own flip after it. distinct = (scenario, schedule).")
 ASSUMPTIONS = ["kernel flock and the fake S3's conditional PUT are the 'real mutual exclusion' the statement presupposes; non-CAS S3 is out of scope",
                "separate handles inside one process stand in for separate processes (they share no Python state and contend through flock / the object store)",
@@ -335,8 +336,89 @@ def pct_case(draw):
             "schedule": {"order": list(order), "preempt": sorted(pre)}, "seed": draw(st.integers(0, 3))}
 
 
+CHILD = r"""
+import sys, json
+sys.path.insert(0, sys.argv[1])
+import logging; logging.disable(logging.CRITICAL)
+import datashard
+t = datashard.load_table(sys.argv[2])
+me, n = int(sys.argv[3]), int(sys.argv[4])
+acked = []
+for j in range(n):
+    try:
+        if j % 5 == 4:
+            # a snapshot-preserving commit in the mix
+            with t.new_transaction() as tx:
+                tx.expire_snapshots(0)
+                tx.commit()
+            continue
+        if t.append_records([{"k": me * 1000 + j, "s": f"p{me}"}]):
+            acked.append(me * 1000 + j)
+    except Exception as e:
+        print("RAISED", type(e).__name__, flush=True)
+print("ACKED", json.dumps(acked), flush=True)
+"""
+
+
+def run_processes(task):
+    """True multi-process stress (no schedule control): N processes commit concurrently through their own handles.
+    End-state oracle only: every acknowledged append is present exactly once, nothing else is, the chain is linear."""
+    import json as _json
+    import subprocess
+    import sys
+    import time as _time
+    from ..common import REPO_SRC
+
+    res = Result()
+    with scratch_dir("c01p") as d:
+        world = c04.make_world(d, "local")
+        base = build_base(world, 1)
+        nproc, reps = task["nproc"], task["reps"]
+        t0 = _time.time()
+        procs = [subprocess.Popen([sys.executable, "-c", CHILD, REPO_SRC, world.root, str(i + 1), str(reps)], stdout=subprocess.PIPE, text=True) for i in range(nproc)]
+        acked, raised = [], 0
+        for p in procs:
+            try:
+                out, _ = p.communicate(timeout=600)
+            except subprocess.TimeoutExpired:
+                p.kill()
+                res.inconclusive.append("a child timed out")
+                continue
+            for line in out.splitlines():
+                if line.startswith("ACKED"):
+                    acked += _json.loads(line[6:])
+                elif line.startswith("RAISED"):
+                    raised += 1
+        case = {"kind": "processes", "nproc": nproc, "reps": reps}
+        res.case(key=f"procs|{nproc}|{reps}", nontrivial=True, labels=["processes", "stale-base-race"], sample=case)
+        res.case(key=f"procs|{nproc}|{reps}|b", nontrivial=True, labels=["processes"])
+        try:
+            v = read_view(world.fs())
+        except ReadError as e:
+            res.violation("processes/final-unreadable", str(e), case)
+            return res
+        want = current_rows(base) + rows_multiset([{"k": k, "s": f"p{k // 1000}"} for k in acked])
+        got = current_rows(v)
+        if got != want:
+            res.violation("processes/acknowledged-rows-differ", f"{nproc} processes x {reps} ops: lost {list((want - got).items())[:3]} duplicated/extra {list((got - want).items())[:3]}", case)
+        seqs = [s["seq"] for s in v["snapshots"]]
+        if len(set(seqs)) != len(seqs) or seqs != sorted(seqs):
+            res.violation("processes/sequence-numbers", f"sequence numbers not strictly increasing: {seqs}", case)
+        if len(v["snapshots"]) != 1 + len(acked):
+            res.violation("processes/snapshot-count", f"{len(v['snapshots'])} snapshots for {len(acked)} acknowledged appends + 1", case)
+        ids = [s["id"] for s in v["snapshots"]]
+        for a, b in zip(v["snapshots"], v["snapshots"][1:]):
+            if b["parent"] != a["id"]:
+                res.violation("processes/parent-chain", f"snapshot {b['id']} has parent {b['parent']}, previous snapshot is {a['id']}", case)
+                break
+        res.extra["process_stress_seconds"] = round(_time.time() - t0, 2)
+        res.extra["process_stress_acknowledged"] = len(acked)
+        res.extra["process_stress_raised"] = raised
+    return res
+
+
 def plan(tier, seed):
-    tasks = []
+    tasks = [{"kind": "procs", "nproc": 6, "reps": 10 if tier == "quick" else 60}]
     ns = 2 if tier == "quick" else 1
     fixed = FIXED if tier == "thorough" else FIXED[:6]
     for sc in fixed:
@@ -351,11 +433,16 @@ def plan(tier, seed):
 def run_task(task):
     if task["kind"] == "enum":
         return run_enum(task)
+    if task["kind"] == "procs":
+        return run_processes(task)
     res = Result()
     campaign(pct_case(), run_case, task["n"], task["seed"], res, PROP, shrink=task["tier"] == "thorough")
     return res
 
 
 def replay(case):
+    if case.get("kind") == "processes":
+        r = run_processes({"nproc": case.get("nproc", 6), "reps": case.get("reps", 10)})
+        return [{"bucket": v["bucket"], "what": v["what"]} for v in r.violations]
     o = run_case(case)
     return [{"bucket": b, "what": w} for b, w in o["violations"]]
